@@ -24,7 +24,9 @@ def setup(ctx: Any) -> None:
 
 
 def gen_case(rnd, tier: str, i: Any) -> Dict[str, Any]:
-    return gen_int.gen_case(rnd, tier, need_comm=True)
+    c = gen_int.gen_case(rnd, tier, need_comm=True)
+    c["pre_calls"] = rnd.sample(c04.PRE_CALLS, rnd.choice([0, 0, 1, 2, 3]))
+    return c
 
 
 def fixed_cases(tier: str):
@@ -59,6 +61,10 @@ def run_case(case: Dict[str, Any], ctx: Any) -> core.CaseResult:
         ok, ta = drv.guard(res, "TraceAnalysis(load)", drv.new_analysis, d)
         if not ok:
             return res
+        for nm in case.get("pre_calls", []):
+            c04.pre_call(ta, nm, sorted(per_rank))
+        if case.get("pre_calls"):
+            res.counters["calls_after_history"] += 1
         ok, ov = drv.guard(res, "get_comm_comp_overlap", ta.get_comm_comp_overlap, visualize=False)
         if not ok:
             return res
